@@ -263,7 +263,9 @@ bui31_next(bitint_iter_t *restrict iter, bituint31_t bi)
 			goto term;
 		}
 		res = bi >> 1U;
-		*iter = res;
+		/* like in bitset mode, leave the cursor one beyond the value
+		 * so that a single 0 is not mistaken for end-of-iteration */
+		*iter = res + 1U;
 	} else if (bi >>= 1U, bi >>= *iter) {
 		for (; !(bi & 0b1U); (*iter)++, bi >>= 1U);
 		res = (*iter)++;
@@ -322,7 +324,9 @@ bui63_next(bitint_iter_t *restrict iter, bituint63_t bi)
 			goto term;
 		}
 		res = bi >> 1U;
-		*iter = res;
+		/* like in bitset mode, leave the cursor one beyond the value
+		 * so that a single 0 is not mistaken for end-of-iteration */
+		*iter = res + 1U;
 	} else if (bi >>= 1U, bi >>= *iter) {
 		for (; !(bi & 0b1U); (*iter)++, bi >>= 1U);
 		res = (*iter)++;
